@@ -201,6 +201,13 @@ func (i *Interceptor) BindLocalStream(
 		payload []byte,
 		attributes interceptor.Attributes,
 	) (int, error) {
+		// a select with both the queue and the closed channel ready picks at
+		// random: once closed, never accept a packet nobody will send
+		select {
+		case <-i.closed:
+			return 0, errPacerClosed
+		default:
+		}
 		hdr := header.Clone()
 		pay := make([]byte, len(payload))
 		copy(pay, payload)
